@@ -252,6 +252,19 @@ def main(argv):
         'samples': [{'obligation': g.ob.name, 'goal': str(g.ob.goal)[:600], 'hyps': len(g.ob.hyps),
                      'verdict': (g.result or {}).get('verdict')} for g in S.goals[:3]],
     }
+    # mechanical scan: every place where a hypothesis enters without proof (preconditions, assumed library / callee contracts, ghost definitions)
+    scan = {}
+    used = sorted({os.path.relpath(getattr(m, '__file__', '') or '', ROOT) for n_, m in list(sys.modules.items())
+                   if (n_.startswith('pyvc.models_') or n_.startswith('contracts.')) and getattr(m, '__file__', None)})
+    for rel in used:
+        try:
+            src = open(os.path.join(ROOT, rel)).read()
+        except OSError:
+            continue
+        n = len(re.findall(r'\.assume\(|base_axioms\.append\(|base_axioms_once\(', src))
+        if n:
+            scan[rel] = n
+    cov['assume_call_sites'] = scan
     if bounded is not None:
         cov['bounded'] = {k: v for k, v in bounded.items() if k not in ('failures',)}
         cov['evaluations'] = int(bounded.get('evaluations', 0))
